@@ -14,9 +14,8 @@ The statements are about the model `OrixModel/NDArray.lean` (tied to orix by the
   C  programs: naturality for every finite composition (induction over the program); the result on real
      data is the result on the index array with the recorded element-wise history looked up
   D  NDArray.flatten uses one fixed order (first axis fastest) and is idempotent
-  E  metadata: preserved by every single-object operation (pair swapped by the inverse of a misorientation)
-     in the corrected model; in the model of the code as it is the same holds except for `-Miller` and
-     `Miller.squeeze()` (counter-examples proved)
+  E  metadata: preserved by every single-object operation and every program of them (pair swapped by the
+     inverse of a misorientation)
 
 The no-mutation clause is a statement about the implementation (model functions are pure by
 construction); it is checked on orix itself by the `nomut` and `prog_index` sites.
@@ -300,22 +299,22 @@ theorem cls_preserved (E : ElemOps ε) {O O' : Obj ε} {op : Op ε} (h : O.step 
   case reshape d => cases hs : NDArray.reshape d O.arr <;> rw [hs] at h <;> cases h; rfl
   case flatten => cases hs : Obj.split O.cls _ _ O.arr <;> rw [hs] at h <;> cases h; rfl
   case transpose ax => cases hs : Obj.split O.cls _ _ O.arr <;> rw [hs] at h <;> cases h; rfl
-  case squeeze => by_cases hc : O.cls = .miller <;> simp [hc] at h; cases h; rfl
+  case squeeze => cases h; rfl
   case stack pos others =>
     cases hs : NDArray.stack (List.take pos others ++ O.arr :: List.drop pos others) <;> rw [hs] at h <;> cases h; rfl
   case unit => cases h; rfl
   case inv => by_cases hc : O.cls.isQuat = true <;> simp [hc] at h; cases h; rfl
   case neg => by_cases hc : O.cls.isRot = true <;> simp [hc] at h <;> cases h <;> rfl
 
-/-- Corrected model: every operation on a single object returns the same symmetry / phase / coordinate
-format; the inverse of a misorientation returns the swapped pair. -/
-theorem meta_preserved_spec (E : ElemOps ε) {O O' : Obj ε} {op : Op ε} (hO : MetaOK O)
-    (hop : op.isStack = false) (h : O.stepSpec E op = .ok O') :
+/-- Every operation on a single object returns the same symmetry / phase / coordinate format; the inverse of
+a misorientation returns the swapped pair. -/
+theorem meta_preserved (E : ElemOps ε) {O O' : Obj ε} {op : Op ε} (hO : MetaOK O)
+    (hop : op.isStack = false) (h : O.step E op = .ok O') :
     O'.md = expectedMeta O.cls op O.md ∧ MetaOK O' := by
   have hsym : ∀ m : Meta, m.symL = 0 → ({ m with symL := 0 } : Meta) = m := by
     intro m hm; cases m; simp_all
-  cases op <;> simp only [Obj.stepSpec, Obj.step, Obj.getitem, Obj.reshape, Obj.flatten, Obj.transpose,
-    Obj.squeezeSpec, Obj.unit, Obj.inv, Obj.negSpec, bind, Except.bind, Op.isStack] at h hop
+  cases op <;> simp only [Obj.step, Obj.getitem, Obj.reshape, Obj.flatten, Obj.transpose,
+    Obj.squeeze, Obj.unit, Obj.inv, Obj.neg, bind, Except.bind, Op.isStack] at h hop
   case getitem k =>
     cases hs : Obj.split O.cls _ _ O.arr <;> rw [hs] at h <;> cases h
     exact ⟨by simp [expectedMeta, Op.isInv], hO⟩
@@ -354,61 +353,34 @@ theorem meta_preserved_spec (E : ElemOps ε) {O O' : Obj ε} {op : Op ε} (hO : 
       cases h
       exact ⟨by simp [expectedMeta, Op.isInv], hO⟩
 
-/-- Model of the code as it is: the same, for every operation and class except unary minus and `squeeze`
-on `Miller` (full statement: `meta_preserved_spec`; what is missing: `Vector3d.__neg__` and
-`Object3d.squeeze` rebuild the object with a bare constructor call, which `Miller` does not survive). -/
-theorem meta_preserved_partial (E : ElemOps ε) {O O' : Obj ε} {op : Op ε} (hO : MetaOK O)
-    (hop : op.isStack = false)
-    (hm : ¬ (O.cls = .miller ∧ (op.isNeg = true ∨ op.isSqueeze = true))) (h : O.step E op = .ok O') :
-    O'.md = expectedMeta O.cls op O.md ∧ MetaOK O' := by
-  apply meta_preserved_spec E hO hop
-  cases op <;> try exact h
-  case squeeze =>
-    have hc : O.cls ≠ .miller := fun hc => hm ⟨hc, Or.inr rfl⟩
-    simp only [Obj.step, Obj.squeeze, hc, if_false] at h
-    exact h
-  case neg =>
-    have hc : O.cls ≠ .miller := fun hc => hm ⟨hc, Or.inl rfl⟩
-    simp only [Obj.step, Obj.neg] at h
-    simp only [Obj.stepSpec, Obj.negSpec]
-    by_cases hr : O.cls.isRot = true
-    · simpa [hr] using h
-    · simpa [hr, hc] using h
-
-/-- metadata through every finite program of single-object operations (induction over the program) -/
-theorem run_meta_spec (E : ElemOps ε) (prog : List (Op ε)) :
-    ∀ {O O' : Obj ε}, MetaOK O → (∀ op ∈ prog, op.isStack = false) → O.runSpec E prog = .ok O' →
+/-- metadata through every finite program of single-object operations (induction over the program): the
+class is kept and the metadata is the initial one, with the symmetry pair of a misorientation swapped once per
+inverse -/
+theorem program_meta (E : ElemOps ε) (prog : List (Op ε)) :
+    ∀ {O O' : Obj ε}, MetaOK O → (∀ op ∈ prog, op.isStack = false) → O.run E prog = .ok O' →
       O'.cls = O.cls ∧ O'.md = expectedMetaRun O.cls prog O.md := by
   induction prog with
   | nil => intro O O' _ _ h; cases h; exact ⟨rfl, rfl⟩
   | cons op r ih =>
     intro O O' hO hst h
-    simp only [Obj.runSpec, bind, Except.bind] at h
-    cases hs : O.stepSpec E op with
+    simp only [Obj.run, bind, Except.bind] at h
+    cases hs : O.step E op with
     | error e => rw [hs] at h; cases h
     | ok O1 =>
       rw [hs] at h
-      have h1 := meta_preserved_spec E hO (hst op (List.mem_cons_self ..)) hs
-      have hc1 : O1.cls = O.cls := by
-        cases op <;> try (simp only [Obj.stepSpec] at hs; exact cls_preserved E hs)
-        case squeeze => cases hs; rfl
-        case neg =>
-          simp only [Obj.stepSpec, Obj.negSpec] at hs
-          by_cases hr : O.cls.isRot = true <;> simp [hr] at hs <;> cases hs <;> rfl
+      have h1 := meta_preserved E hO (hst op (List.mem_cons_self ..)) hs
+      have hc1 : O1.cls = O.cls := cls_preserved E hs
       have h2 := ih h1.2 (fun o ho => hst o (List.mem_cons_of_mem _ ho)) h
       rw [hc1, h1.1] at h2
       exact ⟨h2.1, h2.2⟩
 
-/-- counter-example (code as it is): unary minus on a `Miller` object drops phase and coordinate format -/
-theorem miller_neg_drops_metadata :
-    ∃ (O O' : Obj Int) (E : ElemOps Int), O.cls = .miller ∧ O.step E .neg = .ok O' ∧ O'.md ≠ O.md :=
-  ⟨⟨.miller, ⟨[1], [(1, false)]⟩, ⟨0, 0, 2, 3⟩⟩, ⟨.miller, ⟨[1], [(-1, false)]⟩, Meta.default⟩,
-    ⟨id, id, fun x => -x⟩, rfl, rfl, by decide⟩
-
-/-- counter-example (code as it is): `squeeze` on a `Miller` object raises for every input -/
-theorem miller_squeeze_raises (E : ElemOps ε) (O : Obj ε) (h : O.cls = .miller) :
-    O.step E .squeeze = .error .dimension := by
-  simp [Obj.step, Obj.squeeze, h]
+/-- `squeeze` and unary minus work for every class (they used to fail / lose the metadata for `Miller`) -/
+theorem squeeze_neg_all_classes (E : ElemOps ε) (O : Obj ε) :
+    (∃ O', O.step E .squeeze = .ok O' ∧ O'.md = O.md ∧ O'.arr = NDArray.squeeze O.arr) ∧
+    (O.cls.isRot = false → ∃ O', O.step E .neg = .ok O' ∧ O'.md = O.md) := by
+  refine ⟨⟨_, rfl, rfl, rfl⟩, ?_⟩
+  intro hr
+  exact ⟨{ O with arr := O.arr.map (fun e => (E.neg e.1, e.2)) }, by simp [Obj.step, Obj.neg, hr], rfl⟩
 
 /-! ## F. rearrangements are bijective; the model is total -/
 
